@@ -10,7 +10,7 @@ M=[
  ('M6','bumble/smp.py',"        except Exception:\n            logger.exception(color(\"!!! Exception in handler:\", \"red\"))\n            response = SMP_Pairing_Failed_Command","        except ValueError:\n            logger.exception(color(\"!!! Exception in handler:\", \"red\"))\n            response = SMP_Pairing_Failed_Command",'Session.on_smp_command','SMP: only ValueError contained'),
  ('M7','bumble/smp.py',"            self.sessions[connection.handle] = session\n\n        # Delegate the handling of the command to the session","            pass\n\n        # Delegate the handling of the command to the session",'Manager.on_smp_pdu','SMP: new responder session not registered'),
  ('M8','bumble/host.py',"            hci_packet = hci.HCI_Packet.from_bytes(packet)\n        except Exception:","            hci_packet = hci.HCI_Packet.from_bytes(packet)\n        except ValueError:",'Host.on_packet','Host.on_packet: only ValueError contained'),
- ('M9','bumble/core.py',"        while offset + 1 < len(data):\n            length = data[offset]","        while offset < len(data):\n            length = data[offset]",'AdvertisingData.append','AdvertisingData.append: loop bound off by one'),
+# (M9: AdvertisingData.append loop bound -- the C17 entry was dropped in favour of C18's contract in contracts/c18_more.py)
  ('M10','bumble/sdp.py',"                logger.exception(color(\"!!! Exception in handler:\", \"red\"))\n                self.send_response(\n                    SDP_ErrorResponse(\n                        transaction_id=sdp_pdu.transaction_id,\n                        error_code=ErrorCode.INSUFFICIENT_RESOURCES_TO_SATISFY_REQUEST,\n                    )\n                )","                logger.exception(color(\"!!! Exception in handler:\", \"red\"))",'sdp:Server.on_pdu','SDP server: no error response when a handler fails'),
  ('M11','bumble/gatt_client.py',"                    logger.warning(\n                        f'!!! mismatched response: expected {expected_response_name}'\n                    )\n                    return\n","                    logger.warning(\n                        f'!!! mismatched response: expected {expected_response_name}'\n                    )\n",'Client.on_gatt_pdu','GATT client: mismatched response resolves the waiter'),
  ('M12','bumble/device.py',"        if att_pdu.op_code & 1:\n            if connection.gatt_client is None:","        if att_pdu.op_code & 2:\n            if connection.gatt_client is None:",'Device.on_gatt_pdu','ATT routing by the wrong bit'),
